@@ -57,6 +57,18 @@ CHECKS['C15'] = dict(
     design_ref='DESIGN.md section 6, C15',
     technique='Coq proof (arithmetic over virtual time, induction over event lists) + in-Coq correspondence with real client/server under a virtual clock')
 
+CHECKS['C16'] = dict(
+    text='Theorems (props/C16.v): the SETUP frame, as decoded from the wire under either back end, states exactly the configuration '
+         '(version 1.0, periods in ms exact on whole ms and within half a ms otherwise, MIME types, lease flag, payload); for EVERY '
+         'schedule of application requests, provider/transport suspensions and sender steps SETUP is the first frame written and is '
+         'written once (the pre-fix early-publish behaviour is proved to break it); the server accepts exactly a SETUP on stream 0 '
+         'without resume, with lease only when a publisher exists and on_setup not raising, and every rejection is an ERROR on stream 0 '
+         'with UNSUPPORTED_SETUP / REJECTED_SETUP / REJECTED_RESUME. Tied to the code by regenerated constants and an in-Coq '
+         'correspondence on the single-step loop (configurations, connect schedules with requests at every tick, SETUP/RESUME frames '
+         'fed to a real server). Partial: IEEE arithmetic of to_milliseconds is validated, not proved.',
+    design_ref='DESIGN.md section 6, C16',
+    technique='Coq proof (codec corollary, invariant over all schedules, decision-table characterisation) + in-Coq correspondence with real client/server')
+
 NOT_YET = {}
 
 def main():
